@@ -142,8 +142,26 @@ def check_C07(tier, seed):
                    extra_cov={"client_flight_fate_vectors_enumerated_by_tlc": len(vecs), "generator_states": gst})
 
 
+def check_C04(tier, seed):
+    r = random.Random(seed * 7919 + 4)
+    quick = tier == "quick"
+    vecs, gst = V.gen("SeqGen.tla", "SeqGen_fates6.cfg", "C04")
+    n_vec = 500 if quick else 4096
+    n_rand = 1300 if quick else 60000
+    scripts = [scen.auth_script(r, i, fate_vec=v) for i, v in enumerate(sample(vecs, n_vec, r))]
+    scripts += [scen.auth_script(r, len(scripts) + i) for i in range(n_rand)]
+    mcs = [("Auth.tla", "MC_Auth.cfg" if quick else "MC_Auth10.cfg")]
+    return generic("C04", tier, seed, mcs, scripts,
+                   [("auth", "AuthTrace.tla", "AuthTrace.cfg")],
+                   ["authenticity is that of the toy provider's keyed checksum (a tampered byte fails the tag); real AEAD is not exercised",
+                    "frames processed are read from the public FrameStats deltas; the frame budget comes from the independent decoder on the sender's side",
+                    "state digest excludes counters, path byte credit and the LossDetection/Pacing/KeyDiscard/MaxAckDelay timers"],
+                   extra_cov={"fate_vectors_enumerated_by_tlc": len(vecs), "generator_states": gst})
+
+
 REGISTRY = {
     "C01": check_C01,
+    "C04": check_C04,
     "C07": check_C07,
     "C08": check_C08,
 }
@@ -174,4 +192,8 @@ def replay_C07(scripts):
     return generic("C07", "quick", 0, [], scripts, [("antiamp", "AntiAmpTrace.tla", "AntiAmpTrace.cfg")], [], shards=1)
 
 
-REPLAY = {"C08": replay_C08, "C01": replay_C01, "C07": replay_C07}
+def replay_C04(scripts):
+    return generic("C04", "quick", 0, [], scripts, [("auth", "AuthTrace.tla", "AuthTrace.cfg")], [], shards=1)
+
+
+REPLAY = {"C04": replay_C04, "C08": replay_C08, "C01": replay_C01, "C07": replay_C07}
